@@ -1,7 +1,7 @@
 (* LangProofs.v — specification of the documented language fallback, written from the property
    statement (not from the code), and the proofs that the model in Lang.v meets it. *)
 
-From Coq Require Import List NArith Bool Lia.
+From Coq Require Import List NArith Bool Lia PeanoNat.
 From Verif Require Import model.Lang.
 Import ListNotations.
 Open Scope N_scope.
@@ -604,5 +604,28 @@ Proof.
   exists 4, [3; 4; 1], 1, [3; 4],
     {| m_text := [72]; m_atts := []; m_qrs := [[121]];
        tr_text := [(3, [[104]])]; tr_atts := []; tr_qrs := [(3, [[115]]); (4, [[107]])] |}.
+  vm_compute. repeat split; discriminate.
+Qed.
+
+(* ---- router case arguments against the statement (which knows no length rule) --------------------------------- *)
+
+(* when the chain's choice has as many arguments as the base, it is what the router compares *)
+Lemma case_arguments_partial cl allowed base args tr :
+  length (fst (get_text cl allowed base args tr)) = length args ->
+  case_arguments cl allowed base args tr = fst (get_text cl allowed base args tr).
+Proof.
+  unfold case_arguments. destruct (get_text cl allowed base args tr) as [out used]. cbn [fst].
+  intros H. rewrite H, Nat.eqb_refl. reflexivity.
+Qed.
+
+(* ... but a translation of another length is replaced by the BASE arguments: neither the chain's choice (fra) nor
+   the next language of the chain that has a translation (spa, the environment default) is compared *)
+Lemma case_arguments_refuted :
+  exists cl allowed base args tr,
+    case_arguments cl allowed base args tr <> fst (get_text cl allowed base args tr)
+    /\ case_arguments cl allowed base args tr = args
+    /\ item_translation tr (env_default allowed) <> [].
+Proof.
+  exists 2, [3; 2], 1, [[121]], [(2, [[111]; [117]]); (3, [[115]])].
   vm_compute. repeat split; discriminate.
 Qed.
